@@ -115,6 +115,8 @@ STDLIB = {"re.compile": re.compile, "re.escape": re.escape, "re.sub": re.sub, "r
           "urllib.parse.quote_from_bytes": urllib.parse.quote_from_bytes, "collections.deque": collections.deque, "io.BytesIO": io.BytesIO,
           "dict.fromkeys": dict.fromkeys, "bytes.fromhex": bytes.fromhex, "bytes.maketrans": bytes.maketrans, "str.maketrans": str.maketrans, "int.from_bytes": int.from_bytes,
           "functools.reduce": functools.reduce, "itertools.groupby": itertools.groupby, "itertools.chain": itertools.chain,
+          "itertools.chain.from_iterable": itertools.chain.from_iterable, "itertools.repeat": itertools.repeat, "itertools.zip_longest": itertools.zip_longest,
+          "itertools.accumulate": itertools.accumulate, "itertools.starmap": itertools.starmap, "itertools.product": itertools.product,
           "itertools.takewhile": itertools.takewhile, "itertools.dropwhile": itertools.dropwhile, "itertools.islice": itertools.islice,
           "binascii.b2a_base64": binascii.b2a_base64, "binascii.a2b_base64": binascii.a2b_base64,
           "base64.b64encode": base64.b64encode, "base64.b64decode": base64.b64decode, "base64.encodebytes": base64.encodebytes, "base64.decodebytes": base64.decodebytes,
